@@ -1,6 +1,7 @@
 import Oas3Model.Driver.Util
 import Oas3Model.Model.Naming
 import Oas3Model.Gen.Naming
+import Oas3Model.Model.Registry
 open Lean Oas3.Driver Oas3.Naming
 
 namespace Oas3.Driver.Naming
@@ -102,8 +103,183 @@ def scopes : Handler := fun req => do
     return verdict true []
   pure (Json.mkObj [("model", Json.null), ("match", true), ("judge", judge), ("branch", (fieldD inp "kind" (Json.str "scopes")).getStr?.toOption.getD "scopes")])
 
+
+/-! ### names the generator derives itself: request / response / parameter structs of every operation (HTTP paths
+and webhooks), inline member types — next to the component schemas of the same document -/
+
+def httpMethods : List String := ["get", "put", "post", "delete", "options", "head", "patch", "trace"]
+
+/-- operations of a document: `paths`, then `webhooks` (display path `webhooks/<name>`) -/
+def specOps (spec : Json) : List (Oas3.Registry.Op × Json) :=
+  let of (pfx k : String) : List (Oas3.Registry.Op × Json) := match spec.getObjVal? k with
+    | .ok (.obj m) => m.toList.flatMap fun (p, item) => httpMethods.filterMap fun me => match item.getObjVal? me with
+        | .ok o => some ({ method := me.toUpper.toList, path := (pfx ++ p).toList,
+                           operationId := match o.getObjVal? "operationId" with | .ok (.str s) => some s.toList | _ => none }, o)
+        | .error _ => none
+    | _ => []
+  of "" "paths" ++ of "webhooks/" "webhooks"
+
+def sortJ (l : List Json) : List Json := (l.toArray.qsort (fun a b => a.compress < b.compress)).toList
+
+/-- E: scope-level judge for documents whose component keys coincide with derived names.  On the emitted code:
+every operation keeps a stable id of its own, every HTTP operation a client method, every operation a request
+struct and a response enum of its own (not shared with another operation, not the type of a component schema),
+every parameter group a nested struct with exactly its parameters, every component schema and every inline
+member type an item with exactly its members.  `model` = the identifiers `Model/Registry.lean` predicts. -/
+def opScopes (old : Handler) : Handler := fun req => do
+  let inp ← field req "in"
+  let impl ← field req "impl"
+  let basic ← old req
+  if (fieldD (fieldD basic "judge" Json.null) "ok" (Json.bool true)) != Json.bool true then return basic
+  let spec := fieldD inp "spec" (Json.mkObj [])
+  let schemaKeys : List String := match (fieldD (fieldD spec "components" (Json.mkObj [])) "schemas" (Json.mkObj [])) with
+    | .obj m => m.toList.map (·.1) | _ => []
+  let keysC := schemaKeys.map String.toList
+  let taken := Oas3.Registry.reserved keysC
+  let sops := specOps spec
+  let some built := Oas3.Registry.build { only := none, excluded := none } (sops.map (·.1)) | throw "model-fuel-exhausted"
+  let S (c : List Char) : String := String.ofList c
+  let tn (k : String) : String := S (Oas3.Registry.typeName k.toList)
+  let mReq (id : String) : String := S (Oas3.Registry.requestName taken id.toList)
+  let mResp (id : String) : String := S (Oas3.Registry.responseName taken id.toList)
+  -- ---------- model
+  let mRows := built.map fun (id, o) => Json.arr #[str id, str o.method, str o.path, Json.str (mReq (S id)), Json.str (mResp (S id))]
+  let mMethods := (built.filter fun e => !Oas3.Registry.isWebhook e.2).map fun e => str (Oas3.Client.fieldName e.1)
+  let model := Json.mkObj [("ops", Json.arr (sortJ mRows).toArray), ("methods", Json.arr (sortJ mMethods).toArray),
+    ("schemas", Json.arr (schemaKeys.map fun k => Json.arr #[Json.str k, Json.str (tn k)]).toArray)]
+  -- ---------- what the implementation emitted
+  let sOf (j : Json) (k : String) : String := (fieldD j k (Json.str "")).getStr?.toOption.getD ""
+  let defs := (arr (fieldD impl "defs" (Json.arr #[]))).toOption.getD []
+  let defOf (n : String) : Option Json := defs.find? fun d => sOf d "name" == n
+  let kindOf (n : String) : String := match defOf n with | some d => sOf d "kind" | none => ""
+  let stripRaw (f : String) : String := if f.startsWith "r#" then (f.drop 2).toString else f
+  let fieldsOf (n : String) : List String := match defOf n with
+    | some d => ((arr (fieldD d "fields" (Json.arr #[]))).toOption.getD []).map fun f => stripRaw (sOf f "name")
+    | none => []
+  let variantsOf (n : String) : List String := match defOf n with
+    | some d => ((arr (fieldD d "variants" (Json.arr #[]))).toOption.getD []).map (sOf · "name")
+    | none => []
+  /- the locally defined types a field's type mentions -/
+  let fieldTargets (n f : String) : List String := match defOf n with
+    | some d => ((((arr (fieldD d "fields" (Json.arr #[]))).toOption.getD []) ++ ((arr (fieldD d "variants" (Json.arr #[]))).toOption.getD [])).filter fun x => stripRaw (sOf x "name") == f).flatMap fun x =>
+        ((arr (fieldD x "edges" (Json.arr #[]))).toOption.getD []).filterMap fun e => match e with
+          | .arr #[.str t, _] => if (defOf t).isSome then some t else none
+          | _ => none
+    | none => []
+  let rows : List (String × String × String) := ((arr (fieldD impl "registry" (Json.arr #[]))).toOption.getD []).filterMap fun r => match r with
+    | .arr #[.str i, .str m, .str p] => some (i, m, p) | _ => none
+  let methods : List (String × String × String) := ((arr (fieldD impl "client_methods" (Json.arr #[]))).toOption.getD []).map fun m =>
+    let out := sOf m "output"
+    let inner := String.ofList (((((out.toList.dropWhile (· != '<')).drop 1).reverse.dropWhile (· != '>')).drop 1).reverse)
+    (sOf m "name", (sOf m "request_ty").replace " " "", inner.replace " " "")
+  let isHook (p : String) : Bool := p.startsWith "webhooks/"
+  let schemaNames := schemaKeys.map tn
+  /- the request struct / response enum the implementation gave an operation: HTTP operations say it in their
+  client method; webhook operations have no method — theirs is the candidate of the naming scheme that is
+  defined and is not the type of a component schema -/
+  let methodOf (id : String) : Option (String × String × String) := methods.find? fun m => m.1 == S (Oas3.Client.fieldName id.toList)
+  let hookPick (cands : List String) (kind : String) : String :=
+    match cands.find? (fun c => kindOf c == kind && !schemaNames.contains c) with | some c => c | none => "<none>"
+  let reqOf (id p : String) : String := if isHook p then hookPick [tn id ++ "Request", tn id ++ "RequestParams"] "struct"
+    else match methodOf id with | some m => m.2.1 | none => "<no method>"
+  let respOf (id p : String) : String := if isHook p then hookPick [tn (tn id ++ "Response"), tn (tn id ++ "ResponseEnum")] "enum"
+    else match methodOf id with | some m => m.2.2 | none => "<no method>"
+  let iRows := rows.map fun (i, m, p) => Json.arr #[Json.str i, Json.str m, Json.str p, Json.str (reqOf i p), Json.str (respOf i p)]
+  let implJ := Json.mkObj [("ops", Json.arr (sortJ iRows).toArray), ("methods", Json.arr (sortJ (methods.map fun m => Json.str m.1)).toArray),
+    ("schemas", Json.arr (schemaKeys.map fun k => Json.arr #[Json.str k, Json.str (if (defOf (tn k)).isSome then tn k else "<none>")]).toArray)]
+  -- ---------- classes the model predicts for this document
+  let ids := built.map (·.1)
+  let opNames := (Oas3.Registry.opTypeNames taken ids).map S
+  let declares (o : Json) (loc : String) : Bool := ((arr (fieldD o "parameters" (Json.arr #[]))).toOption.getD []).any fun q => sOf q "in" == loc
+  let paramNames : List String := built.flatMap fun (id, op) =>
+    match sops.find? (fun so => so.1 == op) with
+    | some so => [("query", "Query"), ("path", "Path"), ("header", "Header")].filterMap fun (loc, sfx) =>
+        if declares so.2 loc then some (mReq (S id) ++ sfx) else none
+    | none => []
+  let classOf (culprit : String) : List String :=
+    if (opNames.filter (· == culprit)).length ≥ 2 then ["KnownOpTypeNameMerge"]
+    else if schemaNames.contains culprit && opNames.contains culprit then ["KnownFallbackNameTaken"]
+    else if schemaNames.contains culprit && paramNames.contains culprit then ["KnownParamStructNameTaken"]
+    else []
+  let fail (why culprit : String) : Json := verdict false (classOf culprit) why
+  let dupOf (l : List String) : List String := (l.filter fun x => (l.filter (· == x)).length > 1).eraseDups
+  let sameSet (a b : List String) : Bool := a.all b.contains && b.all a.contains && a.length == b.length
+  let ents := fieldD inp "entities" (Json.mkObj [])
+  let strs (j : Json) : List String := ((arr j).toOption.getD []).filterMap fun x => x.getStr?.toOption
+  let judge := Id.run do
+    -- operations: none lost, none merged
+    if rows.length != sops.length then return fail s!"{sops.length} operations in the document (paths + webhooks), {rows.length} registered: {rows.map (·.1)}" ""
+    if !(dupOf (rows.map (·.1))).isEmpty then return fail s!"two operations share a stable id: {dupOf (rows.map (·.1))}" ""
+    let httpRows := rows.filter fun r => !isHook r.2.2
+    if !(dupOf (methods.map (·.1))).isEmpty then return fail s!"two client methods share a name: {dupOf (methods.map (·.1))}" ""
+    for m in methods do
+      if !legal .field m.1.toList then return fail s!"illegal method identifier {m.1}" ""
+    for r in httpRows do
+      if (methodOf r.1).isNone then return fail s!"operation {r.1} ({r.2.1} {r.2.2}) has no client method" ""
+    if methods.length != httpRows.length then return fail s!"{httpRows.length} HTTP operations, {methods.length} client methods" ""
+    -- every operation has a request struct and a response enum of its own
+    for r in rows do
+      let rq := reqOf r.1 r.2.2
+      let rs := respOf r.1 r.2.2
+      if kindOf rq != "struct" then return fail s!"operation {r.1}: no request struct of its own (found {rq})" (tn r.1 ++ "Request")
+      if kindOf rs != "enum" then return fail s!"operation {r.1}: no response enum of its own (found {rs})" (tn (tn r.1 ++ "Response"))
+      if schemaNames.contains rq then return fail s!"operation {r.1}: its request struct and a component schema share the identifier {rq}" rq
+      if schemaNames.contains rs then return fail s!"operation {r.1}: its response enum and a component schema share the identifier {rs}" rs
+    let reqs := rows.map fun r => reqOf r.1 r.2.2
+    let resps := rows.map fun r => respOf r.1 r.2.2
+    match dupOf reqs with
+    | d :: _ => return fail s!"two operations share the request struct {d}" d
+    | [] => pure ()
+    match dupOf resps with
+    | d :: _ => return fail s!"two operations with different responses share the response enum {d}" d
+    | [] => pure ()
+    -- parameter groups: a nested struct per declared location, holding exactly those parameters
+    for e in (arr (fieldD ents "ops" (Json.arr #[]))).toOption.getD [] do
+      match rows.find? (fun r => r.2.1 == sOf e "method" && r.2.2 == sOf e "path") with
+      | none => return fail s!"operation {sOf e "method"} {sOf e "path"} is not registered" ""
+      | some r =>
+        let rq := reqOf r.1 r.2.2
+        let main := strs (fieldD e "main" (Json.arr #[]))
+        if !sameSet (fieldsOf rq) main then return fail s!"request struct {rq} of {r.1}: fields {fieldsOf rq}, expected {main}" rq
+        for loc in ["query", "path", "header"] do
+          let want := strs (fieldD e (if loc == "path" then "path_" else loc) (Json.arr #[]))
+          if !want.isEmpty then
+            match fieldTargets rq loc with
+            | [t] => if !sameSet (fieldsOf t) want then return fail s!"{rq}.{loc}: struct {t} has fields {fieldsOf t}, the operation declares {want}" t
+            | ts => return fail s!"{rq}.{loc}: expected one nested struct, found {ts}" rq
+    -- component schemas: present under their own identifier with their own members
+    for e in (arr (fieldD ents "schemas" (Json.arr #[]))).toOption.getD [] do
+      let n := tn (sOf e "key")
+      if kindOf n != sOf e "kind" then return fail s!"component schema {sOf e "key"}: expected a {sOf e "kind"} named {n}, found '{kindOf n}'" n
+      if sOf e "kind" == "struct" then
+        let want := strs (fieldD e "fields" (Json.arr #[]))
+        if !sameSet (fieldsOf n) want then return fail s!"component schema {sOf e "key"}: struct {n} has fields {fieldsOf n}, the schema declares {want}" n
+      else
+        let want := (fieldD e "members" (Json.num 0)).getNat?.toOption.getD 0
+        if (variantsOf n).length != want then return fail s!"component schema {sOf e "key"}: enum {n} has {(variantsOf n).length} variants for {want} members" n
+    -- inline member types: reached through the parent's field, with their own members
+    for e in (arr (fieldD ents "inline" (Json.arr #[]))).toOption.getD [] do
+      let pn := tn (sOf e "parent")
+      match fieldTargets pn (sOf e "prop") with
+      | [t] =>
+        if kindOf t != sOf e "kind" then return fail s!"{pn}.{sOf e "prop"}: expected an inline {sOf e "kind"}, found {kindOf t} {t}" t
+        if sOf e "kind" == "struct" then
+          let want := strs (fieldD e "fields" (Json.arr #[]))
+          if !sameSet (fieldsOf t) want then return fail s!"{pn}.{sOf e "prop"}: struct {t} has fields {fieldsOf t}, the inline schema declares {want}" t
+        else
+          let want := (fieldD e "members" (Json.num 0)).getNat?.toOption.getD 0
+          if (variantsOf t).length != want then return fail s!"{pn}.{sOf e "prop"}: enum {t} has {(variantsOf t).length} variants for {want} values" t
+      | ts => return fail s!"{pn}.{sOf e "prop"}: expected one inline type, found {ts}" pn
+    return verdict true []
+  let branch := (fieldD inp "kind" (Json.str "opnames")).getStr?.toOption.getD "opnames"
+  pure (Json.mkObj [("model", model), ("match", model == implJ), ("judge", judge), ("branch", branch), ("impl_view", implJ)])
+
+def scopesAny : Handler := fun req => do
+  let inp ← field req "in"
+  if (inp.getObjVal? "entities").toOption.isSome then opScopes scopes req else scopes req
+
 def ops : List (String × Handler) := [
-  ("naming.scopes", scopes),
+  ("naming.scopes", scopesAny),
   ("naming.field", sanitizer .field (toRustFieldName Oas3.Gen.forbidden) knownField),
   ("naming.type", sanitizer .type (toRustTypeName Oas3.Gen.prelude) (fun _ o => knownType o)),
   ("naming.const", sanitizer .const toRustConstName (fun _ _ => [])),
